@@ -11,6 +11,7 @@ import (
 	"fmt"
 	"os"
 	"runtime"
+	"regexp"
 	"sort"
 	"strconv"
 	"strings"
@@ -25,6 +26,8 @@ import (
 
 // ---------------------------------------------------------------------------
 // keys
+
+var tmpNameRe = regexp.MustCompile(`[^ '"]*(verif-run-|fzf-temp-)[^ '"]*`)
 
 var keyBytes = map[string]string{
 	"enter": "\r", "esc": "\x1b", "tab": "\t", "btab": "\x1b[Z", "bspace": "\x7f", "space": " ",
@@ -354,7 +357,10 @@ func (r *sysRun) start() bool {
 		os.Setenv("TMPDIR", d)
 	}
 	r.os = simos.New(r.sim)
-	r.os.Log = r.sim.Logf
+	r.os.Log = func(format string, args ...any) {
+		// names of temporary files are random (os.CreateTemp): keep them out of the event log and its hash
+		r.sim.Logf("%s", tmpNameRe.ReplaceAllString(fmt.Sprintf(format, args...), "<tmp>"))
+	}
 	r.os.Behave = r.defaultBehave
 	r.tty = simtty.New(plan.Cols, plan.Rows, plan.CurRow)
 	r.tty.OnDSR = func(row, col int) {
